@@ -120,20 +120,20 @@ def pArrayDeclCommon (self : Self) (baseType : Val) (coord : Option Coord) : P V
       let _ ← expect "RBRACKET"
       pure (make dim (qs ++ [.str "static"]))
     else
-      match ← accept "TIMES" with
-      | some tt =>
+      if ← andM (peekIs "TIMES") (peek2Is "RBRACKET") then
+        let tt ← advance
         let _ ← expect "RBRACKET"
         pure (make (mk .ID (some (← tokCoord tt)) [.str tt.val]) qs)
-      | none =>
+      else
         let dim ← if ← startsExpression then self .assignmentExpression else pure Val.none
         let _ ← expect "RBRACKET"
         pure (make dim qs)
   else
-    match ← accept "TIMES" with
-    | some tt =>
+    if ← andM (peekIs "TIMES") (peek2Is "RBRACKET") then
+      let tt ← advance
       let _ ← expect "RBRACKET"
       pure (make (mk .ID (some (← tokCoord tt)) [.str tt.val]) [])
-    | none =>
+    else
       let dim ← if ← startsExpression then self .assignmentExpression else pure Val.none
       let _ ← expect "RBRACKET"
       pure (make dim [])
@@ -213,7 +213,7 @@ def pParameterListLoop (self : Self) (acc : List Val) : P (List Val) := do
 /-- `_build_parameter_declaration` -/
 def buildParameterDeclaration (spec : DeclSpec) (decl : Val) (specCoord : Option Coord) : P Val := do
   let useDecl : P Bool := do
-    if spec.type.length > 1 then
+    if spec.type.length > 1 && (spec.type.getLast!).isCls .IdentifierType then
       let names ← lastTypeNames spec
       if names.length == 1 then isTypeInScope (strOf names.head!) else pure false
     else pure false
